@@ -103,6 +103,8 @@ Verdict(ev) ==
             ELSE "ok"
       \* converting into another currency yields a new document; the converted one keeps its figures
       [] ev.k = "convert" -> IF ev.r2 # ev.r THEN "convert-alters-original" ELSE "ok"
+      \* ... nor does inverting the converted copy: the original, calculated again, gives what it gave
+      [] ev.k = "convert-invert" -> IF ~ev.ok2 THEN "ok" ELSE IF ev.r2 # ev.r THEN "inverting-a-converted-copy-alters-the-original" ELSE "ok"
       [] ev.k = "removeinc" ->
             IF ~ev.ok2 THEN "removeinc-refused"
             ELSE IF ev.r2.payable # ev.r.twt THEN "removeinc-payable"
